@@ -27,6 +27,10 @@ CLAIMED.update({
  "C07": ("The real TracerouteParallel (real errgroup, context plumbing on a context model) over a model driver, explored for every interleaving of its goroutines at scheduling points and every bounded reply sequence: the returned list is proved equal to the reference fold (first reply per TTL, destination overrides, clipped at the lowest destination) of the replies the receiver accepted.", "5 C07"),
  "C08": ("Parts (a),(b): same exploration on a virtual discrete-event clock: the parallel engine returns within MaxTimeout + one poll and never starts a receive at or after its deadline; the serial engine within the per-TTL sum; a cancellation at any instant is reported with ctx.Err() within one poll + one send delay. Deadlines handed to DNS/HTTP/dial are not covered yet.", "5 C08"),
 })
+CLAIMED.update({
+ "C15": ("The real runTracerouteMulti with the run function (package variable) replaced by a model that succeeds or fails per call, explored over completion orders of the concurrent runs/probes (bounded preemptions): success exactly when everything succeeded, with exactly the requested numbers of runs and RTT samples, none lost or duplicated (multiset equality), zeros for unanswered probes; on any failure no result and an error for which errors.Is holds for every individual failure; a failing public-IP fetcher changes neither case; no goroutine outlives the call.", "5 C15"),
+ "C18": ("(a) sequences of cache gets on the real go-cache over the virtual clock: a stored success is served without re-query until expiry, errors are never stored; (b) the real EnrichWithReverseDns/GetReverseDnsForIPs with a model resolver answering per address, over completion orders of the concurrent lookups: names attached to each hop/destination are the resolver's answer for that same address, empty on failure, rest of the document unchanged, every lookup carries a deadline; (c) the real GetPublicIP/backoff.Retry/handleRequest over a scripted model HTTP client: providers in order, stop at the first valid address, 4xx and invalid bodies final for a provider, every HTTP call carries a deadline.", "5 C18"),
+})
 NA = {
  "C13": "needs replies from the real Linux kernel stack in network namespaces; a solver sees only what is encoded, and encoding the kernel would verify my model of it (DESIGN.md 5 C13)",
 }
